@@ -19,7 +19,7 @@ FormulaKinds == {"none", "valid_arith", "valid_fn", "valid_nested3", "valid_cros
                  "empty_formula", "only_eq_space", "nested4", "self_ref", "diag_range", "cross_sheet_range", "column_noarg",
                  "count_mixed", "index_multi", "sumif_cell", "address5", "text_fn", "neg_pct_chain",
                  "row_zero", "abs_row_zero", "range_row_zero", "col_4letters", "wholecol_4letters", "col_beyond_xfd", "row_huge", "brackets8", "half_open_area", "half_open_area2", "empty_title", "empty_quoted_title",
-                 "exp_huge", "long_sum", "sumif_wholecol_target", "column_4letters", "crit_unicode_digit", "unicode_digit_literal", "crit_leading_zero", "crit_huge", "cmp_chain_220", "row_5000_digits"}
+                 "exp_huge", "long_sum", "sumif_wholecol_target", "column_4letters", "crit_unicode_digit", "unicode_digit_literal", "crit_leading_zero", "crit_huge", "cmp_chain_220", "row_5000_digits", "cmp_chain_in_call"}
 Placements == {"origin", "gap"}
 
 Rejecting == {"unknown_fn", "unknown_sheet", "lowercase_fn", "name", "error_literal", "unbalanced", "trailing_op",
